@@ -4,7 +4,9 @@ meta (/tmp/seed/<ID>/_seed/meta.json) and what was run here."""
 import json, sys, os
 id_, tier, result = sys.argv[1], sys.argv[2], sys.argv[3]
 note = sys.argv[4] if len(sys.argv) > 4 else ""
-a = json.load(open(f"/tmp/seed/{id_}/_seed/meta.json"))
+rnd = os.environ.get("SEED_ROUND", "")
+a = json.load(open(f"/tmp/seed{rnd}/{id_}/_seed/meta.json"))
+outdir = f"/verif/seeded/{id_}" + (f"-{rnd}" if rnd else "")
 m = {
     "property": id_,
     "breaks": a.get("summary", ""),
@@ -19,6 +21,6 @@ m = {
     "check_result": result,
     "note": note,
 }
-os.makedirs(f"/verif/seeded/{id_}", exist_ok=True)
-json.dump(m, open(f"/verif/seeded/{id_}/meta.json", "w"), indent=1)
+os.makedirs(outdir, exist_ok=True)
+json.dump(m, open(outdir + "/meta.json", "w"), indent=1)
 print("wrote", id_)
